@@ -325,10 +325,12 @@ class Ctx:
         with open(cases_path, "a") as f:
             for k in self.known:
                 if self.prop in k.get("properties", []) and "witness" in k and (select is None or select(k)):
-                    w = dict(k["witness"])
-                    w["witness_of"] = k["id"]
-                    f.write(json.dumps(w) + "\n")
-                    n += 1
+                    for wk in ("witness", "witness2", "witness3"):
+                        if wk in k:
+                            w = dict(k[wk])
+                            w["witness_of"] = k["id"]
+                            f.write(json.dumps(w) + "\n")
+                            n += 1
         return n
 
     def drive(self, binary, argv, out_name, timeout=1800, env=None):
